@@ -850,14 +850,15 @@ def write_bam(path, world, reads, build="hg19", sort=True, index=True, mapq=60,
     if extra_records:
         recs += extra_records
     if sort:
-        recs.sort(key=lambda r: (r[0], r[3]))
+        recs.sort(key=lambda r: (r[7] if len(r) > 7 else 0, r[0], r[3]))
     mode = {"bam": "wb", "sam": "w"}[fmt]
     with pysam.AlignmentFile(path, mode, header=header) as f:
-        for ref_start, ops, seq, name, flag, mq, bq in recs:
+        for rec in recs:
+            ref_start, ops, seq, name, flag, mq, bq = rec[:7]
             a = pysam.AlignedSegment(header)
             a.query_name = name
             a.flag = flag
-            a.reference_id = 0
+            a.reference_id = rec[7] if len(rec) > 7 else 0
             a.reference_start = ref_start
             a.mapping_quality = mq
             a.cigartuples = ops
